@@ -45,14 +45,15 @@ def subsets : List String → List (List String)
     whole response instead of the nearest nullable position) either present or repaired; the
     deviation is attributed to the first listed C02 finding whose removal changes the model's
     answer; a deviation that remains with every C02 toggle off is C03's alone and not judged here
-    (only if the toggle-free model with C03's defect repaired gives the specification's data). -/
+    (only when the specification's run recorded a field error). -/
 def judge (known : List String) (case impl : String) : JudgeOut :=
   match parse case with
   | some (.list [.atom "case", s, d, opn, vs, w, _]) =>
     match Decode.schema? s, Decode.doc? d, Decode.optStr? opn, Decode.vars? vs, Decode.world? w with
     | some S, some doc, some opName, some vars, some world =>
       let fuel := Spec.Exec.fuelBound doc
-      let spec := dataStr (Spec.ExecDyn.run S doc opName vars world fuel)
+      let specRes := Spec.ExecDyn.run S doc opName vars world fuel
+      let spec := dataStr specRes
       let spec2 := dataStr (Spec.ExecDyn.run S doc opName vars world (fuel + 3))
       let on := ids.filter known.contains
       let m (on : List String) (cap : Bool) (fuel : Nat) :=
@@ -71,9 +72,11 @@ def judge (known : List String) (case impl : String) : JudgeOut :=
           match sub.find? (fun id => m (sub.filter (· ≠ id)) cap fuel ≠ mK) with
           | some id => .known id mK spec
           | none =>
-            -- no listed C02 finding is involved: admissible only when the toggle-free model
-            -- agrees with the specification and the whole deviation is C03's (errors null `data`)
-            if m [] false fuel = spec ∧ m [] cap fuel = mK then { verdict := "OK", model := mK, spec := spec }
+            -- no listed C02 finding is involved: the toggle-free model itself deviates.  That is
+            -- C03's business (how errors null positions; a key that occurs twice is executed per
+            -- occurrence) exactly when the specification's run recorded a field error; without
+            -- any error it would be an unlisted data defect
+            if specRes.errs ≠ [] ∧ m [] cap fuel = mK then { verdict := "OK", model := mK, spec := spec }
             else .viol mK spec
     | _, _, _, _, _ => .viol "bad-case" "undecodable case"
   | _ => .viol "bad-case" "undecodable case"
